@@ -7,3 +7,5 @@ for p in "$@"; do
 done
 git -C /repo checkout -- . 
 git -C /verif checkout -- evidence 2>/dev/null
+# leave a clean build behind (the binary in .build is the mutant's otherwise)
+(cd /verif/sim && CARGO_NET_OFFLINE=true cargo build --release --offline >/dev/null 2>&1)
